@@ -1073,13 +1073,21 @@ func areEqualConvertType(query, pattern *sqlparser.ConvertType) bool {
 	if !strings.EqualFold(query.Operator, pattern.Operator) {
 		return false
 	}
-	if areEqualSQLVal(query.Length, pattern.Length) {
+	if !areEqualOptionalSQLVal(query.Length, pattern.Length) {
 		return false
 	}
-	if areEqualSQLVal(query.Scale, pattern.Scale) {
+	if !areEqualOptionalSQLVal(query.Scale, pattern.Scale) {
 		return false
 	}
 	return true
+}
+
+// areEqualOptionalSQLVal compares values that may be absent (length and scale of a CONVERT / CAST type)
+func areEqualOptionalSQLVal(query, pattern *sqlparser.SQLVal) bool {
+	if query == nil || pattern == nil {
+		return query == nil && pattern == nil
+	}
+	return areEqualSQLVal(query, pattern)
 }
 func areEqualValuesFuncExpr(query, pattern *sqlparser.ValuesFuncExpr) bool {
 	return areEqualColName(query.Name, pattern.Name)
